@@ -109,6 +109,13 @@ func (c *FnCtx) callCommon(call *ssa.CallCommon, v ssa.Value, pos token.Pos) []s
 		}
 		c.checkTypeInvsAtCall(callee, args, argTypes, pos)
 		c.curBindings, c.curCallee = bindings, callee
+		beforeCon := c.cur.clone()
+		allocBeforeCon := c.alloc()
+		defer func() {
+			if con.ModAll {
+				c.assumeCalleeFrame(callee, beforeCon, allocBeforeCon)
+			}
+		}()
 		out := c.applyContract(con, callee, args, argTypes, sig, pos, mkResults, validateResults)
 		c.curBindings, c.curCallee = nil, nil
 		c.havocCaptured(bindings, callee, con)
@@ -131,7 +138,20 @@ func (c *FnCtx) callCommon(call *ssa.CallCommon, v ssa.Value, pos token.Pos) []s
 		all = true
 	}
 	c.noteUncontracted(key, callee, call)
+	beforeCall := c.cur.clone()
+	allocBefore := c.alloc()
+	if c.frameMode() && callee != nil {
+		if idx, ok := mutatingExternals[c.eng.qualKeyShort(callee)]; ok && idx < len(args) {
+			switch tt := types.Unalias(argTypes[idx]).Underlying().(type) {
+			case *types.Slice:
+				c.accessOblige(heapElem(tt.Elem()), app("s-arr", args[idx]), pos, "in-place "+callee.Name())
+			case *types.Map:
+				c.accessOblige(heapMapVal(tt), args[idx], pos, "in-place "+callee.Name())
+			}
+		}
+	}
 	c.havocCall(mods, all, args, argTypes)
+	c.assumeCalleeFrame(callee, beforeCall, allocBefore)
 	c.flushPendingHavoc()
 	validateResults(out)
 	c.assumeTypeInvsAfterCall(callee, args, argTypes, out, sig)
@@ -441,6 +461,8 @@ func (c *FnCtx) modFrame(con *Contract, env *specEnv) map[string][]string {
 					addRef("BIG", "(Array Int Int)", a.t)
 				case "out":
 					addRef("GH_out", "(Array Int Str)", c.writerKey(a))
+				case "owned":
+					addRef("GH_owned", "(Array Int Bool)", c.refOf(a))
 				case "cell":
 					pt, ok := types.Unalias(a.ty).Underlying().(*types.Pointer)
 					if !ok {
